@@ -261,6 +261,12 @@ def fault_candidates(b: Board, observer=None):
             out.append((c, turn, 'play of a card held by another seat'))
         for c in played[:1] + played[-1:]:
             out.append((c, turn, 'play of a card already played'))
+    if observer is not None and not over and len(played) >= 1 and observer != m.dummy:
+        # the two hands an observer sees must not be mixed up: on its own turn a card of dummy's, on dummy's turn one of its own
+        if turn == observer and b.hands[m.dummy]:
+            out.append((sorted(b.hands[m.dummy])[-1], turn, 'play of a card held by another seat'))
+        if turn == m.dummy and b.hands[observer]:
+            out.append((sorted(b.hands[observer])[-1], turn, 'play of a card held by another seat'))
     if over and observer is None:
         for s in range(4):
             for c in (0, 51):
